@@ -5,6 +5,8 @@ CONSTANTS
   ReadDrops <- MC_Drops
   ReReadKeys <- MC_ReRead
   InsertNewTagStoresChars = TRUE
+  ShallowCopy = FALSE
+  SrcSteps = 0
   Emit = FALSE
 SPECIFICATION Spec
 INVARIANT TypeOK
